@@ -582,8 +582,10 @@ vbi_search_next(vbi_search *search, vbi_page **pg, int dir)
 		search->dir = dir;
 
 		search->stop_pgno[0] = search->start_pgno;
-		search->stop_subno[0] = (search->start_subno == VBI_ANY_SUBNO) ?
-			0 : search->start_subno;
+		/* start_subno is the sub-page number of the page returned
+		   last (or what vbi_search_new() prepared), never the
+		   wildcard: 0x3F7F is a valid sub-code of hex pages. */
+		search->stop_subno[0] = search->start_subno;
 		search->stop_pgno[1] = search->start_pgno;
 		search->stop_subno[1] = search->start_subno;
 	}
